@@ -3,7 +3,7 @@
 Events : Instance::step() traces of one-operation scripts with allow_disabled_opcodes on/off, operands on
          the initial stack, executed and inside an unexecuted branch.
 Oracle : ref.script.Interp.exec_extended (string / bitwise / signed-integer functions), lenient where the
-         statement is silent (rounding of negative halving / right shift; operands longer than 4 bytes may be
+         statement is silent (rounding of a negative right shift; operands longer than 4 bytes may be
          refused as numeric overflow).  Invalid operands must give a script-level failure, never a crash.
 """
 import sys, os, argparse, json
@@ -231,7 +231,7 @@ def main():
         rule='exhaustive over a boundary pool of %d values (numbers 0,+-1,+-127/128/255/256,2^15,2^31-1,2^39-1, negative zero, blobs of length 0..12, unequal lengths) for all arities of the 15 opcodes, '
              'x {no flags, standard flags}; disabled / unexecuted variants on a 1/16 operand sample (they do not depend on operands); thorough adds 640k random operand tuples. '
              'non-trivial = distinct (opcode, operands, flags, mode) judged against the reference function (computed result or required failure)' % len(POOL),
-        assumptions=['rounding of negative values in OP_2DIV / OP_RSHIFT: truncation and floor are both accepted',
+        assumptions=['OP_2DIV is judged as `x 2 OP_DIV` (quotient truncated toward zero); rounding of negative values in OP_RSHIFT (a shift, not a division): truncation and floor are both accepted',
                      'numeric operands longer than 4 bytes may be refused as numeric overflow',
                      'results that do not fit 64-bit script numbers must be refused'],
         exhaustive=False, min_events=10000)
